@@ -122,8 +122,14 @@ Proof.
   exists d. auto.
 Qed.
 
+(* the size assumption for one model *)
+Definition SizeM (w : world) (m : N) : Prop :=
+  forall x, nth_opt (w_models w) (N.to_nat m) = Some x -> N.of_nat (List.length (m_idents x)) < 10 ^ 39.
+Lemma SizeOk_M w m : SizeOk w -> SizeM w m.
+Proof. intros S x E. apply S. eapply nth_opt_In. exact E. Qed.
+
 (* make_unique_item_name in general: the first sub-element keeps exactly one text item *)
-Lemma mj_make_unique self L w c m pp : Closed w -> SizeOk w -> selflen self L w -> c < w_next w ->
+Lemma mj_make_unique self L w c m pp : Closed w -> SizeM w m -> selflen self L w -> c < w_next w ->
   m < N.of_nat (List.length (w_models w)) -> runsQ (make_unique_item_name T c m pp) w (@mj (list N) self L w).
 Proof.
   intros C SZ SL Lcw Lm. unfold make_unique_item_name.
@@ -134,8 +140,7 @@ Proof.
   destruct nm as [orig|]; [|apply mj_fail; assumption].
   destruct (ENV get_model_ok w m C Lm) as (x & EGM & EX & MO).
   eapply mj_rd; [exact C|exact SL|exists (OK x); split; [exact EGM|]; intros a [= <-]; exact (eq_refl x)|]. intros a <-.
-  assert (INx : In x (w_models w)) by (eapply nth_opt_In; eauto).
-  pose proof (SZ x INx) as SZx.
+  pose proof (SZ x EX) as SZx.
   destruct (pigeon (m_idents x) (fun k => pp ++ [47] ++ cand orig k)) as (j & Lj & FREE).
   { intros i j0 Hi Hj E. apply app_inv_head in E. apply app_inv_head in E. apply (ENV cand_inj orig i j0); [| |exact E].
     - assert (N.of_nat i <= N.of_nat (List.length (m_idents x))) by lia. assert (10 ^ 39 < 10 ^ 40) by (apply N.pow_lt_mono_r; lia). lia.
@@ -221,7 +226,7 @@ Proof.
     assert (C2 : Closed w2).
     { apply Closed_wset; auto. destruct NOM1 as (A & B & D & E & _). split; [exact A|]. split; [exact B|]. split; [exact D|]. split; [exact E|exact L]. }
     assert (EN2 : w_nodes w2 self = Some n) by (unfold w2; cbn [wset w_nodes]; rewrite upd_other; [exact EN1|congruence]).
-    assert (SZ2 : SizeOk w2) by exact SZ.
+    assert (SZ2 : SizeM w2 m) by (apply SizeOk_M; exact SZ).
     assert (S2 : selflen self pos w2) by (exists n; split; [exact EN2|exact LE]).
     assert (Lmv2 : mv < w_next w2) by exact Lmv.
     assert (Lm2 : m < N.of_nat (List.length (w_models w2))) by exact Lm.
